@@ -502,4 +502,40 @@ def model_case(m, flavour):
 for m in (1, 2, 3, -1):
     for fl in ("cif", "bcif"):
         R.check("requested model selects exactly its rows", f"model {m} {fl}", {"model": m, "flavour": fl}, lambda m=m, fl=fl: model_case(m, fl))
+def tolerance_case(tol, level):
+    """compression with a tolerance asked for: a compressed file decodes to the structure that was written, float
+    columns within the *requested* relative tolerance (B-factors / occupancies / a float extra field with six
+    decimals, enough rows for the fixed-point encodings to pay off)"""
+    a = build(24, None, [""], [0], [False], True, False, ("b_factor", "occupancy"))
+    n = a.array_length()
+    rng = np.random.default_rng(4242)
+    a.set_annotation("b_factor", np.round(rng.uniform(10, 100, size=n), 6))
+    a.set_annotation("occupancy", np.round(rng.uniform(0.1, 1, size=n), 6))
+    f = pdbx.BinaryCIFFile()
+    pdbx.set_structure(f, a)
+    if level == "file":
+        g = pdbx.compress(f, float_tolerance=tol)
+    else:
+        g = pdbx.BinaryCIFFile({k: pdbx.compress(blk, float_tolerance=tol) for k, blk in f.items()})
+    st = io.BytesIO()
+    g.write(st)
+    st.seek(0)
+    b = pdbx.get_structure(pdbx.BinaryCIFFile.read(st), model=1, extra_fields=["b_factor", "occupancy"])
+    err = same(a, b, ())
+    if err:
+        return err
+    for cat in ("b_factor", "occupancy"):
+        x, y = a.get_annotation(cat).astype(float), b.get_annotation(cat).astype(float)
+        rel = np.abs(x - y) / np.abs(x)
+        if rel.max() > tol * (1 + 1e-6) + 1e-15:
+            k = int(rel.argmax())
+            return f"{cat}: wrote {x[k]!r}, the compressed file gives {y[k]!r} (relative error {rel[k]:.3g}, float_tolerance={tol} was asked for)"
+    return None
+
+
+for tol in (1e-3, 1e-6, 1e-9, 1e-12):
+    for level in ("file", "block"):
+        R.check("text and binary form decode to the same result, also after compression", f"compress {level} with a requested tolerance",
+                {"float_tolerance": tol, "level": level}, lambda tol=tol, level=level: tolerance_case(tol, level))
+
 R.finish()
